@@ -212,8 +212,23 @@ def check(prog: Program, run: Run) -> None:
                       "_get_ident_response() on a miss", f.loc)
     cmp_calls = [x for x in ast.walk(par) if isinstance(x, ast.Call) and call_name(x) ==
                  "_ident_response_matches"]
-    if len(cmp_calls) == 1 and [ast.unparse(a) for a in cmp_calls[0].args] == [variant, mparam,
-                                                                                resp]:
+    # the names the response travels under: the targets of the two sources and plain copies
+    resp_names = {x.targets[0].id for x, _s in srcs}
+    grown = True
+    while grown:
+        grown = False
+        for x in ast.walk(par):
+            if isinstance(x, ast.Assign) and len(x.targets) == 1 and isinstance(
+                    x.targets[0], ast.Name) and isinstance(x.value, ast.Name) and \
+                    x.value.id in resp_names and x.targets[0].id not in resp_names:
+                resp_names.add(x.targets[0].id)
+                grown = True
+    for x, s in srcs:
+        if "_get_ident_response" in s:
+            resp = x.targets[0].id  # the name of the fresh response (cached by the caller)
+    if len(cmp_calls) == 1 and len(cmp_calls[0].args) == 3 and [
+            ast.unparse(a) for a in cmp_calls[0].args[:2]] == [variant, mparam] and \
+            ast.unparse(cmp_calls[0].args[2]) in resp_names:
         cn = cfg.node_of(_stmt_of(fn, cmp_calls[0]))
         src_nodes = [cfg.node_of(x) for x, _s in srcs]
         if good_src and all(cn in cfg.reachable(s) for s in src_nodes):
